@@ -715,12 +715,15 @@ class Image:
 
         # ! ---- Extract dimensions and new origin from voxels
 
-        origin_voxel = [0 if sl.start is None else sl.start for sl in voxels]
+        # Normalize slices (open ends, negative and out-of-range values) consistently
+        # with the array access below.
+        origin_voxel = [
+            sl.indices(self.num_voxels[i])[0] for i, sl in enumerate(voxels)
+        ]
         origin = self.coordinatesystem.coordinate(origin_voxel)
 
         opposite_voxel = [
-            self.num_voxels[i] if sl.stop is None else sl.stop
-            for i, sl in enumerate(voxels)
+            sl.indices(self.num_voxels[i])[1] for i, sl in enumerate(voxels)
         ]
         opposite = self.coordinatesystem.coordinate(opposite_voxel)
 
